@@ -129,7 +129,7 @@ PROPS = {
                      {"bin": "ptprog", "cls": "pt", "sets": {}, "flavour": "fn", "weight": 2, "chunk": 200},
                      {"bin": "ptprog", "cls": "pt", "sets": {}, "flavour": "mem", "weight": 2, "chunk": 200}],
             "relevant_probes": ["magic_cas", "magic_wr", "p_block", "p_steal_hit"],
-            "rule": "each evaluation is one generated determinate pthread program (spawn trees with join values, pthread_attr_t with detach state and stack size, pthread_exit from a nested frame, statically initialised mutexes first used by several threads at once, trylock loops, spin locks incl. trylock, once, keys with destructors, cond hand-off, barrier phases, self/equal, detach, sched_yield, tiny sleeps; every return code is part of the output) executed (a) once in a fresh process on the system pthreads (MYTH_WRAP_PTHREAD=0) to obtain the expected output and (b) under the simulator with the calls redirected to MassiveThreads by the library's own --wrap list; non-trivial = a cross-worker preemption happened; distinct = distinct event signatures",
+            "rule": "each evaluation is one generated determinate pthread program (spawn trees with join values, pthread_attr_t with detach state and stack size (also sizes that are no multiple of a page, and a create/join churn on one explicit size), pthread_exit from a nested frame, statically initialised mutexes first used by several threads at once, trylock loops, spin locks incl. trylock, once, keys with destructors, cond hand-off, barrier phases, self/equal, detach, sched_yield, tiny sleeps; every return code is part of the output) executed (a) once in a fresh process on the system pthreads (MYTH_WRAP_PTHREAD=0) to obtain the expected output and (b) under the simulator with the calls redirected to MassiveThreads by the library's own --wrap list; non-trivial = a cross-worker preemption happened; distinct = distinct event signatures",
             "components": {"real": "all of /repo/src incl. myth_wrap_pthread.c, myth_real.c, myth_wrap_malloc.c, myth_wrap_socket.c (LD flavour, -DMYTH_WRAP=MYTH_WRAP_LD), linked with @src/myth-ld.opts", "stubbed": "worker OS threads (coroutines), start-up barrier, RNG, clock; the reference execution uses the real system pthreads and scheduler (it only provides the expected output of a determinate program)"},
             "assumptions": ["programs are determinate by construction; when outputs differ the reference is re-run twice before the library is blamed", "the preload (dl) mechanism is not run by this check (see DESIGN.md 10.1): same wrapper sources as ld, only the symbol resolution differs"]},
 }
